@@ -314,6 +314,11 @@ func genC18(e *emitter, tier string, seed int64) {
 		emitV2(e, prelude+"x = "+path+"\nif x == nil {\n  p(\"nil\")\n}\np(x)\n", 3000, "index-paths")
 		emitV2(e, prelude+path+" = 9\np(m, l)\n", 3000, "index-paths")
 	}
+	// for-in over strings cut inside a character (slices count bytes): each invalid byte is one U+FFFD
+	for _, it := range []string{`"é"[0:1]`, `"héllo"[2:]`, `"ab世"[:4]`, `"日志"[::-1]`, `"日志"[1:5]`, `"aé"`, `""`, `"é"[1:]`} {
+		emitV2(e, "n = 0\nfor c in "+it+" {\n  n = n + 1\n  p(c, len(c))\n}\np(n)\n", 3000, "string-iteration")
+		emitV2(e, "s = "+it+"\nfor c in s {\n  if c == \"a\" {\n    continue\n  }\n  p(c)\n}\np(len(s))\n", 3000, "string-iteration")
+	}
 	// values that contain themselves through every v2 consumer
 	for _, mk := range []string{"a = [1]\na[0] = a\n", "a = {\"k\": 1}\na[\"k\"] = a\n", "b = [1, 2]\na = {\"l\": b}\nb[1] = a\n"} {
 		for _, u := range []string{"p(a)", "p(a == a)", "p(a in [a])", "x = a + 1", "for x in a {\n  p(1)\n}", "p(a[0])", "c = a[0:1]\np(c)", "if a {\n  p(1)\n}", "p(-a)", "p(!a)", "p(pr(a))", "x = [a, a]\np(x == x)", "p(a < a)", "a += 1"} {
